@@ -1,1 +1,555 @@
-pub fn run(_run: &mut vf_core::Run) {}
+//! C05 — FRI soundness against adversarial provers.
+//!
+//! `AdvFri` (adv.rs) plays a cheating prover against the real `FriVerifier` / `DefaultVerifierChannel`.
+//! The verifier is handed exactly what a verifier has: the commitments, the proof bytes, the values of
+//! the function at the positions *its own coin* yields after `FriVerifier::new`.
+//!
+//! Oracle: the verifier must not return `Ok` unless the adversary's ground truth (`adv::Verdict`) shows
+//! that, at the actual query positions, every opened row is the committed one, every folding step is
+//! consistent with the true challenges, the remainder sent is the committed one, has an allowed size and
+//! agrees with the last folded values -- i.e. nothing a verifier could see is wrong (luck, computed
+//! exactly). A panic is "not accepted" (label only; C06 owns panics).
+//!
+//! One sub-check per strategy family so that a defect in one family (F5: remainder chosen after the
+//! queries) does not stop the exploration of the others.
+
+use proptest::prelude::*;
+use serde::{Deserialize, Serialize};
+use vf_core::{catch, CheckResult, Fail, Obs, Run, SubCheck, Tier, X};
+use vf_repo::prelude::*;
+use winter_crypto::{DefaultRandomCoin, ElementHasher, RandomCoin};
+use winter_fri::{DefaultVerifierChannel, FriOptions, FriProof, FriVerifier};
+use winter_math::{FieldElement, StarkField};
+use winter_utils::{ByteReader, Deserializable, SliceReader};
+
+use crate::adv::{self, OpenMode, Plan, RemMode, Structure};
+use crate::c15::{de_variant, elem, variant, Outcome};
+use crate::cfg::{self, Expand, Sched, Ty};
+use crate::model;
+
+#[derive(Serialize, Deserialize, Clone, Debug, PartialEq, Eq)]
+pub enum FuncKind {
+    /// independent uniform values
+    Random,
+    /// polynomial of degree bound+1 .. domain-1 (selector)
+    HighDegree(u16),
+    /// polynomial within the bound, changed on max(1, D >> log_inv_fraction) drawn positions
+    Corrupted { log_inv_fraction: u8 },
+}
+
+#[derive(Serialize, Deserialize, Clone, Debug, PartialEq, Eq)]
+pub enum StructKind {
+    Omit,
+    Duplicate,
+    Swap,
+}
+
+#[derive(Serialize, Deserialize, Clone, Debug, PartialEq, Eq)]
+pub enum Strat {
+    HonestFold,
+    LongRemainder { extra: u8 },
+    RemainderAfterQueries,
+    /// committed layers l >= at come from the honest chain of a polynomial within the bound
+    SwitchLayer { at: u16 },
+    /// trees commit to the chain of f, rows are opened from the chain of the low-degree polynomial
+    OpenOtherChain { from: u16 },
+    /// rows of one layer are solved after the queries to fit both neighbours
+    UnboundLayer { layer: u16 },
+    /// fold one layer with a different challenge; `crafted`: the function is built so that this wrong
+    /// challenge makes everything after it low-degree
+    WrongAlpha { layer: u16, alpha: [X; 3], crafted: bool },
+    Structure { kind: StructKind, a: u16, b: u16, commitment_too: bool },
+}
+
+impl Strat {
+    fn name(&self) -> &'static str {
+        match self {
+            Strat::HonestFold => "honest-fold",
+            Strat::LongRemainder { .. } => "long-remainder",
+            Strat::RemainderAfterQueries => "remainder-after-queries",
+            Strat::SwitchLayer { .. } => "switch-layer",
+            Strat::OpenOtherChain { .. } => "open-other-chain",
+            Strat::UnboundLayer { .. } => "unbound-layer",
+            Strat::WrongAlpha { crafted: true, .. } => "wrong-alpha-crafted",
+            Strat::WrongAlpha { .. } => "wrong-alpha",
+            Strat::Structure { kind: StructKind::Omit, .. } => "omit-layer",
+            Strat::Structure { kind: StructKind::Duplicate, .. } => "duplicate-layer",
+            Strat::Structure { kind: StructKind::Swap, .. } => "swap-layers",
+        }
+    }
+}
+
+#[derive(Serialize, Deserialize, Clone, Debug)]
+pub struct AdvCase {
+    pub ty: Ty,
+    pub sched: Sched,
+    pub num_queries: u16,
+    pub nonce: u64,
+    pub func: FuncKind,
+    pub seed: u64,
+    pub strat: Strat,
+}
+
+#[derive(Clone, Copy, PartialEq, Eq)]
+pub enum Family {
+    HonestFold,
+    RemainderAfterQueries,
+    SwitchLayer,
+    Tamper,
+    WrongAlpha,
+    Structure,
+}
+
+pub struct Adv(pub Family);
+
+fn func_strategy() -> BoxedStrategy<FuncKind> {
+    prop_oneof![
+        3 => Just(FuncKind::Random),
+        3 => any::<u16>().prop_map(FuncKind::HighDegree),
+        // exactly bound + 1
+        1 => Just(FuncKind::HighDegree(0)),
+        4 => (0u8..=14).prop_map(|l| FuncKind::Corrupted { log_inv_fraction: l }),
+    ]
+    .boxed()
+}
+
+fn el_strategy() -> BoxedStrategy<[X; 3]> {
+    prop_oneof![
+        1 => Just([X(0), X(0), X(0)]),
+        1 => Just([X(1), X(0), X(0)]),
+        4 => (any::<u128>(), any::<u128>(), any::<u128>()).prop_map(|(a, b, c)| [X(a), X(b), X(c)]),
+    ]
+    .boxed()
+}
+
+fn strat_strategy(fam: Family) -> BoxedStrategy<Strat> {
+    match fam {
+        Family::HonestFold => prop_oneof![3 => Just(Strat::HonestFold), 2 => (1u8..=7).prop_map(|extra| Strat::LongRemainder { extra })].boxed(),
+        Family::RemainderAfterQueries => Just(Strat::RemainderAfterQueries).boxed(),
+        Family::SwitchLayer => any::<u16>().prop_map(|at| Strat::SwitchLayer { at }).boxed(),
+        Family::Tamper => prop_oneof![
+            1 => any::<u16>().prop_map(|from| Strat::OpenOtherChain { from }),
+            // from the first layer on: every opened row belongs to the low-degree chain
+            1 => Just(Strat::OpenOtherChain { from: 0 }),
+            2 => any::<u16>().prop_map(|layer| Strat::UnboundLayer { layer }),
+        ]
+        .boxed(),
+        Family::WrongAlpha => (any::<u16>(), el_strategy(), prop::bool::weighted(0.6))
+            .prop_map(|(layer, alpha, crafted)| Strat::WrongAlpha { layer, alpha, crafted })
+            .boxed(),
+        Family::Structure => (
+            prop_oneof![Just(StructKind::Omit), Just(StructKind::Duplicate), Just(StructKind::Swap)],
+            any::<u16>(),
+            any::<u16>(),
+            any::<bool>(),
+        )
+            .prop_map(|(kind, a, b, commitment_too)| Strat::Structure { kind, a, b, commitment_too })
+            .boxed(),
+    }
+}
+
+impl SubCheck for Adv {
+    type Case = AdvCase;
+    fn name(&self) -> String {
+        match self.0 {
+            Family::HonestFold => "honest-fold",
+            Family::RemainderAfterQueries => "remainder-after-queries",
+            Family::SwitchLayer => "switch-layer",
+            Family::Tamper => "tamper",
+            Family::WrongAlpha => "wrong-alpha",
+            Family::Structure => "structure",
+        }
+        .into()
+    }
+    fn cases(&self, tier: Tier) -> u64 {
+        match self.0 {
+            // every accepted case is shrunk by the engine (<= 400 re-executions) while F5 is open
+            Family::RemainderAfterQueries => tier.pick(3_000, 20_000),
+            Family::HonestFold => tier.pick(30_000, 300_000),
+            _ => tier.pick(25_000, 200_000),
+        }
+    }
+    fn watchdog_secs(&self) -> u64 {
+        60
+    }
+    fn rule(&self) -> String {
+        let what = match self.0 {
+            Family::HonestFold => "honest folding and honest (truncated) remainder of a bad function; variant: remainder with 2..128 times more coefficients than allowed (agrees with the last layer everywhere, only its size is wrong)",
+            Family::RemainderAfterQueries => "honest folding of a bad function; the commitment sent before the queries is to the truncated interpolant, the remainder sent afterwards is interpolated through the queried last-layer points (first `allowed size` of them when there are more)",
+            Family::SwitchLayer => "layers below a drawn index come from the bad function, layers from that index on (index = #layers: only the remainder; index 0: the very first commitment) from the honest chain of a polynomial within the bound (the uncorrupted polynomial / the truncation / an unrelated one)",
+            Family::Tamper => "values changed after commitment: (a) rows opened from the chain of a polynomial within the bound while the trees commit to the bad function's chain, from a drawn layer on; (b) one layer 'unbound': its rows are solved after the queries so that the queried entries show what the previous layer implies and the row folds to what the next layer / the remainder shows (all other layers consistent)",
+            Family::WrongAlpha => "one layer folded with a challenge different from the drawn one; crafted variant: f(x) = A(y^N) + y B(y^N), y = x^(N^i), A = low - alpha' B, so that the wrong challenge at layer i makes every later layer and the remainder perfectly low-degree (only the consistency check of that one folding step can notice)",
+            Family::Structure => "honest folding of a bad function, then layer i omitted / duplicated / layers i,j swapped in the proof (and optionally in the commitment list before the challenges and positions are derived from it)",
+        };
+        format!("{what}; functions: uniformly random / polynomial of degree bound+1..domain-1 / polynomial within the bound changed on 1 .. D/2 positions; schedules well-formed by construction, D = 2^3..2^10 mostly, up to 2^12 quick / 2^14 thorough, folding 2/4/8/16, 1..255 queries from the verifier's coin (duplicates kept), 33 element-type x hasher combinations (Rescue sampled 1:6); non-trivial = function random, beyond the degree bound, or changed on >= 1/4 of the domain; distinct by (strategy, folding, #layers, remainder size, element type, function class)")
+    }
+    fn required_labels(&self, _t: Tier) -> Vec<String> {
+        let mut v: Vec<String> = vec!["func=random".into(), "func=high-degree".into(), "func=corrupted".into(), "layers=1".into(), "layers>=3".into(), "duplicate-positions".into()];
+        if matches!(self.0, Family::HonestFold | Family::RemainderAfterQueries) {
+            v.push("layers=0".into());
+        }
+        match self.0 {
+            Family::HonestFold => {
+                v.push("strategy=honest-fold".into());
+                v.push("strategy=long-remainder".into());
+            },
+            Family::RemainderAfterQueries => {
+                v.push("last-positions<=remainder-size".into());
+                v.push("last-positions>remainder-size".into());
+            },
+            Family::SwitchLayer => {
+                v.push("switch=first-commitment".into());
+                v.push("switch=remainder-only".into());
+                v.push("switch=inner-layer".into());
+                v.push("accepted-legit".into());
+            },
+            Family::Tamper => {
+                v.push("strategy=open-other-chain".into());
+                v.push("strategy=unbound-layer".into());
+            },
+            Family::WrongAlpha => {
+                v.push("strategy=wrong-alpha".into());
+                v.push("strategy=wrong-alpha-crafted".into());
+            },
+            Family::Structure => {
+                v.push("strategy=omit-layer".into());
+                v.push("strategy=duplicate-layer".into());
+                v.push("strategy=swap-layers".into());
+            },
+        }
+        v
+    }
+    fn strategy(&self, tier: Tier) -> BoxedStrategy<AdvCase> {
+        let max = cfg::max_log_domain(tier);
+        // families that manipulate committed layers get at least one
+        let ml = match self.0 {
+            Family::HonestFold | Family::RemainderAfterQueries => 0,
+            _ => 1,
+        };
+        // swapping needs two layers
+        let ml2 = if self.0 == Family::Structure { 2 } else { ml };
+        let sched = prop_oneof![
+            2 => cfg::sched_strategy_layers(ml, 3, 5),
+            3 => cfg::sched_strategy_layers(ml, 3, 8),
+            2 => cfg::sched_strategy_layers(ml2, 3, 8),
+            3 => cfg::sched_strategy_layers(ml2, 4, 10),
+            1 => cfg::sched_strategy_layers(ml, 9, max),
+        ];
+        let queries = prop_oneof![2 => 1u16..=4, 3 => 5u16..=40, 3 => 41u16..=255];
+        (cfg::ty_strategy(6, 1), sched, queries, any::<u64>(), func_strategy(), any::<u64>(), strat_strategy(self.0))
+            .prop_map(|(ty, sched, num_queries, nonce, func, seed, strat)| AdvCase { ty, sched, num_queries, nonce, func, seed, strat })
+            .boxed()
+    }
+    fn check(&self, c: &AdvCase, obs: &mut Obs) -> CheckResult {
+        crate::with_types!(c.ty, adv_generic(c, obs))
+    }
+}
+
+/// drives the real verifier; the positions are the ones its own coin yields after the commit phase
+fn drive<E, H>(out: &adv::AdvOut<E, H>, s: &Sched, f: &[E], num_queries: usize, nonce: u64) -> Outcome
+where
+    E: FieldElement,
+    H: ElementHasher<BaseField = E::BaseField>,
+{
+    let r = catch(|| -> Result<(), (&'static str, String)> {
+        let mut reader = SliceReader::new(&out.proof_bytes);
+        let proof = FriProof::read_from(&mut reader).map_err(|e| ("read_from", de_variant(&e)))?;
+        if reader.has_more_bytes() {
+            return Err(("read_from", "UnconsumedBytes".into()));
+        }
+        let options = FriOptions::new(s.blowup(), s.folding(), s.rmd());
+        let mut channel = DefaultVerifierChannel::<E, H>::new(proof, out.commitments.clone(), s.domain(), s.folding())
+            .map_err(|e| ("channel", de_variant(&e)))?;
+        let mut coin = DefaultRandomCoin::<H>::new(&[]);
+        let verifier = FriVerifier::<E, DefaultVerifierChannel<E, H>, H, DefaultRandomCoin<H>>::new(&mut channel, &mut coin, options, s.bound())
+            .map_err(|e| ("new", variant(&e)))?;
+        let positions = coin.draw_integers(num_queries, s.domain(), nonce).map_err(|_| ("coin", "draw_integers".to_string()))?;
+        if positions != out.positions {
+            return Err(("harness", "positions-differ".into()));
+        }
+        let claimed: Vec<E> = positions.iter().map(|&p| f[p]).collect();
+        verifier.verify(&mut channel, &claimed, &positions).map_err(|e| ("verify", variant(&e)))
+    });
+    match r {
+        Ok(Ok(())) => Outcome::Accepted,
+        Ok(Err((st, e))) => Outcome::Rejected(st, e),
+        Err(p) => Outcome::Panicked(p),
+    }
+}
+
+fn random_poly<E: FieldElement>(x: &mut Expand, len: usize) -> Vec<E>
+where
+    E::BaseField: FA,
+{
+    let mut c: Vec<E> = (0..len).map(|_| elem::<E>(x)).collect();
+    if let Some(last) = c.last_mut() {
+        if *last == E::ZERO {
+            *last = E::ONE;
+        }
+    }
+    c
+}
+
+fn nonzero<E: FieldElement>(x: &mut Expand) -> E
+where
+    E::BaseField: FA,
+{
+    let v = elem::<E>(x);
+    if v == E::ZERO {
+        E::ONE
+    } else {
+        v
+    }
+}
+
+fn adv_generic<E, H>(c: &AdvCase, obs: &mut Obs) -> CheckResult
+where
+    E: FieldElement,
+    E::BaseField: FA,
+    H: ElementHasher<BaseField = E::BaseField>,
+{
+    let s = &c.sched;
+    s.well_formed().map_err(|e| Fail::new("harness/ill-formed-schedule", format!("{s:?}: {e}")))?;
+    let (domain, n, t, big_l) = (s.domain(), s.folding(), s.t(), s.layers as usize);
+    let offset = E::BaseField::GENERATOR;
+    let q = (c.num_queries as usize).clamp(1, 255.min(domain - 1));
+    let mut x = Expand::new(c.seed, 3);
+
+    // ---- strategy, adapted to the schedule ----------------------------------------------------------
+    let mut strat = c.strat.clone();
+    let needs_layers = matches!(strat, Strat::OpenOtherChain { .. } | Strat::UnboundLayer { .. } | Strat::WrongAlpha { .. } | Strat::Structure { .. });
+    if needs_layers && big_l == 0 {
+        obs.label("degraded=no-layers");
+        strat = match strat {
+            Strat::Structure { .. } | Strat::WrongAlpha { .. } => Strat::HonestFold,
+            _ => Strat::SwitchLayer { at: 0 },
+        };
+    }
+    if let Strat::Structure { kind: StructKind::Swap, a, b, commitment_too } = strat {
+        if big_l < 2 {
+            obs.label("degraded=one-layer");
+            strat = Strat::Structure { kind: StructKind::Duplicate, a, b, commitment_too };
+        }
+    }
+
+    // ---- the function ---------------------------------------------------------------------------------
+    let crafted_layer = match &strat {
+        Strat::WrongAlpha { layer, crafted: true, .. } => Some(vf_core::pick_index(*layer, big_l)),
+        _ => None,
+    };
+    let mut far = true;
+    let mut luck_log2: f64 = 62.0; // -log2 of the chance that a far function looks fine: field coincidences only
+    let (f, g, func_label): (Vec<E>, Vec<E>, &'static str) = if let (Some(i), Strat::WrongAlpha { alpha, .. }) = (crafted_layer, &strat) {
+        // layer-i function phi(z) = A(z^N) + z B(z^N) with A = low - alpha' B
+        let fld = ref_field::<E>();
+        let mut a_ref = [0u128; 3];
+        for k in 0..fld.deg {
+            a_ref[k] = alpha[k].0 % fld.fp.p;
+        }
+        let alpha_w: E = from_el(&a_ref);
+        let d_i = s.layer_domain(i);
+        let rows_i = d_i / n;
+        let t_next = (t >> (i * s.log_n as usize)) / n;
+        let b: Vec<E> = random_poly(&mut x, rows_i);
+        let low: Vec<E> = random_poly(&mut x, t_next.max(1));
+        let mut coeffs = vec![E::ZERO; d_i];
+        for m in 0..rows_i {
+            let lo = if m < low.len() { low[m] } else { E::ZERO };
+            coeffs[n * m] = lo - alpha_w * b[m];
+            coeffs[n * m + 1] = b[m];
+        }
+        let layer_i = model::eval_coset(&coeffs, d_i, offset);
+        let f: Vec<E> = (0..domain).map(|j| layer_i[j % d_i]).collect();
+        // g unused by this strategy
+        (f.clone(), f, "high-degree")
+    } else {
+        match &c.func {
+            FuncKind::Random => {
+                let f: Vec<E> = (0..domain).map(|_| elem::<E>(&mut x)).collect();
+                let g = model::eval_coset(&random_poly::<E>(&mut x, t), domain, offset);
+                (f, g, "random")
+            },
+            FuncKind::HighDegree(sel) => {
+                let deg = t + vf_core::pick_index(*sel, domain - t);
+                let coeffs: Vec<E> = random_poly(&mut x, deg + 1);
+                let f = model::eval_coset(&coeffs, domain, offset);
+                let g = model::eval_coset(&coeffs[..t], domain, offset);
+                (f, g, "high-degree")
+            },
+            FuncKind::Corrupted { log_inv_fraction } => {
+                let g = model::eval_coset(&random_poly::<E>(&mut x, t), domain, offset);
+                let count = (domain >> (*log_inv_fraction).max(1)).max(1);
+                let mut f = g.clone();
+                let mut touched = std::collections::BTreeSet::new();
+                for _ in 0..count {
+                    let p = x.below(domain);
+                    if touched.insert(p) {
+                        f[p] += nonzero::<E>(&mut x);
+                    }
+                }
+                let delta = touched.len() as f64 / domain as f64;
+                far = delta >= 0.25 && delta <= (1.0 - 1.0 / s.blowup() as f64) / 2.0;
+                // a query misses every changed row of the first layer with probability 1 - kappa
+                let rows0 = domain / n.min(domain);
+                let rows_touched: std::collections::BTreeSet<usize> = touched.iter().map(|p| p % rows0).collect();
+                let kappa = if big_l == 0 { delta } else { rows_touched.len() as f64 / rows0 as f64 };
+                luck_log2 = if kappa >= 1.0 { 62.0 } else { -(1.0 - kappa).log2() * q as f64 };
+                (f, g, "corrupted")
+            },
+        }
+    };
+
+    // ---- the plan ---------------------------------------------------------------------------------------
+    let mut plan = Plan::honest(f.clone(), q, c.nonce);
+    match &strat {
+        Strat::HonestFold => {},
+        Strat::LongRemainder { extra } => {
+            // at least twice the allowed size, at most the full interpolant, at most 65535 bytes on the wire
+            let mut e = (*extra).clamp(1, s.log_blowup);
+            while e > 1 && (s.rem_size() << e) * E::ELEMENT_BYTES > 65535 {
+                e -= 1;
+            }
+            plan.remainder = RemMode::Long { extra: e };
+        },
+        Strat::RemainderAfterQueries => plan.remainder = RemMode::AfterQueries,
+        Strat::SwitchLayer { at } => {
+            let at = vf_core::pick_index(*at, big_l + 1);
+            plan.g = Some(g.clone());
+            plan.switch_at = Some(at);
+            obs.label(if at == 0 { "switch=first-commitment" } else if at == big_l { "switch=remainder-only" } else { "switch=inner-layer" });
+        },
+        Strat::OpenOtherChain { from } => {
+            plan.g = Some(g.clone());
+            plan.open = OpenMode::OtherChain { from: vf_core::pick_index(*from, big_l) };
+        },
+        Strat::UnboundLayer { layer } => {
+            let l = vf_core::pick_index(*layer, big_l);
+            plan.g = Some(g.clone());
+            plan.switch_at = Some(l + 1);
+            plan.open = OpenMode::Unbound { layer: l };
+            obs.label(format!("unbound={}", if l == 0 { "first" } else if l + 1 == big_l { "last" } else { "middle" }));
+        },
+        Strat::WrongAlpha { layer, alpha, .. } => {
+            let fld = ref_field::<E>();
+            let mut a_ref = [0u128; 3];
+            for k in 0..fld.deg {
+                a_ref[k] = alpha[k].0 % fld.fp.p;
+            }
+            plan.wrong_alpha = Some((vf_core::pick_index(*layer, big_l), from_el(&a_ref)));
+        },
+        Strat::Structure { kind, a, b, commitment_too } => {
+            let i = vf_core::pick_index(*a, big_l);
+            plan.structure = match kind {
+                StructKind::Omit => Structure::Omit { layer: i, commitment_too: *commitment_too },
+                StructKind::Duplicate => Structure::Duplicate { layer: i, commitment_too: *commitment_too },
+                StructKind::Swap => {
+                    let j = (i + 1 + vf_core::pick_index(*b, big_l - 1)) % big_l;
+                    Structure::Swap { a: i, b: j, commitment_too: *commitment_too }
+                },
+            };
+        },
+    }
+
+    obs.label(format!("strategy={}", strat.name()));
+    obs.label(format!("func={func_label}"));
+    obs.label(format!("elem={}", c.ty.label()));
+    obs.label(format!("hash={:?}", c.ty.hash));
+    obs.label(format!("folding={n}"));
+    obs.label(if big_l >= 3 { "layers>=3".to_string() } else { format!("layers={big_l}") });
+    obs.label(format!("rem-size=2^{}", s.log_rem));
+    obs.label(if luck_log2 >= 40.0 { "luck<2^-40" } else { "luck>=2^-40(decided-exactly)" });
+
+    // ---- play ---------------------------------------------------------------------------------------------
+    let out = adv::run::<E, H>(s, &plan);
+    let mut sorted = out.positions.clone();
+    sorted.sort();
+    sorted.dedup();
+    if sorted.len() < out.positions.len() {
+        obs.label("duplicate-positions");
+    }
+    if matches!(strat, Strat::RemainderAfterQueries) {
+        obs.label(if out.last_positions <= s.rem_size() { "last-positions<=remainder-size" } else { "last-positions>remainder-size" });
+    }
+    let verdict = &out.verdict;
+    let outcome = drive::<E, H>(&out, s, &f, q, c.nonce);
+    obs.comparisons += 1;
+    obs.nontrivial_if(far);
+    obs.distinct_key(vf_core::hash_of(&(strat.name(), s.log_n, s.layers, s.log_rem, c.ty.field, c.ty.ext, func_label)));
+    let describe = || {
+        format!(
+            "{} {:?} on {s:?} (D={domain}, bound={}, N={n}, layers={big_l}, remainder size {}), function {:?} seed {:#x}, {q} queries nonce {}: positions {:?} ({} distinct in the last layer); ground truth {verdict:?}; remainder sent {} committed {}",
+            c.ty.label(),
+            c.ty.hash,
+            s.bound(),
+            s.rem_size(),
+            c.func,
+            c.seed,
+            c.nonce,
+            out.positions,
+            out.last_positions,
+            if out.rem_sent == out.rem_committed { "==" } else { "!=" },
+            if out.rem_sent == out.rem_committed { "(same)" } else { "(different polynomial)" },
+        )
+    };
+    match outcome {
+        Outcome::Accepted => {
+            if verdict.legit() {
+                // nothing a verifier could have seen was wrong at these positions
+                obs.label(if verdict.trailing_duplicate { "accepted-legit(trailing-duplicate-ignored)" } else { "accepted-legit" });
+                if std::env::var("VF_FRI_DEBUG").is_ok() && !matches!(strat, Strat::SwitchLayer { .. } | Strat::UnboundLayer { .. } | Strat::OpenOtherChain { .. }) {
+                    eprintln!("DEBUG accepted-legit: {}", describe());
+                }
+                Ok(())
+            } else {
+                obs.label(format!("ACCEPTED-NOT-LEGIT:{}", strat.name()));
+                Err(Fail::new(
+                    if strat.name() == self_family_name(&strat) { "accepted".to_string() } else { format!("{}/accepted", strat.name()) },
+                    format!("verifier accepted although {}: {}", verdict.first_bad.clone().unwrap_or_default(), describe()),
+                ))
+            }
+        },
+        Outcome::Rejected(stage, what) => {
+            if stage == "harness" {
+                return Err(Fail::new("harness/positions-differ", describe()));
+            }
+            obs.label(format!("rejected:{stage}:{what}"));
+            // (a proof with a duplicated trailing layer may be refused for its shape)
+            if verdict.legit() && !verdict.trailing_duplicate {
+                return Err(Fail::new(
+                    format!("legit-rejected/{what}"),
+                    format!("every opened value, folding step and the remainder are consistent at the queried positions, yet the verifier rejected ({stage}: {what}): {}", describe()),
+                ));
+            }
+            Ok(())
+        },
+        Outcome::Panicked(p) => {
+            obs.label(format!("panic:{}", p.key()));
+            Ok(())
+        },
+    }
+}
+
+/// sub-check name when the strategy is the family's only/primary one
+fn self_family_name(s: &Strat) -> &'static str {
+    match s {
+        Strat::HonestFold => "honest-fold",
+        Strat::RemainderAfterQueries => "remainder-after-queries",
+        Strat::SwitchLayer { .. } => "switch-layer",
+        Strat::WrongAlpha { crafted: false, .. } => "wrong-alpha",
+        _ => "",
+    }
+}
+
+pub fn run(run: &mut Run) {
+    run.assume("field arithmetic of /repo is correct (C07/C08); the harness' fold / FFT / Lagrange routines are validated against vf_ref in C15");
+    run.assume("hash collisions and coincidences of independent uniform field elements (probability <= 2^-60 per comparison) do not occur; apart from these, whether an acceptance is legitimate is computed exactly from the actual query positions");
+    run.assume("for the structure family (layers omitted / duplicated / swapped) an acceptance is never counted as legitimate; its base strategy is honest folding of a bad function");
+    run.assume("positions are drawn by the verifier's own coin after FriVerifier::new (DefaultRandomCoin over the commitments it received); the adversary predicts them by replaying the same coin");
+    if let Err(e) = vf_ref::field::selfcheck() {
+        run.inconclusive(format!("reference self-check failed: {e}"));
+        return;
+    }
+    for fam in [Family::HonestFold, Family::SwitchLayer, Family::Tamper, Family::WrongAlpha, Family::Structure, Family::RemainderAfterQueries] {
+        run.sub(&Adv(fam));
+    }
+}
